@@ -28,7 +28,12 @@ Inductive case :=
      timer fires, then all call Regroup concurrently: distinct generations they obtained,
      how many became leader, did they get [previous] back *)
 | CaseWGConc (followers : nat) (expired : bool) (distinct leaders : nat) (same_as_prev : bool)
-| CasePipe (rs : list preq) (evs : list wevent) (obs : list pobs) (downstream_calls : N).
+| CasePipe (rs : list preq) (evs : list wevent) (obs : list pobs) (downstream_calls : N)
+  (* server level: pool workers, ready-queue capacity, admission cap; per request the path
+     (0 ServeMsg, 1 ring, 2 inline first); whether the chain was entered; after the drain:
+     slabs still leased, jobs still in flight *)
+| CaseServer (workers qcap cap : nat) (rs : list preq) (paths : list N) (evs : list wevent)
+             (obs : list pobs) (entered : list bool) (downstream_calls : N) (leased_end inflight_end : N).
 
 (* ---- helpers ---- *)
 Definition ret_code (r : wret) : N := match r with ROk => 0 | RAlready => 1 | RErr => 2 end%N.
@@ -187,6 +192,24 @@ Fixpoint deadlines_ok (rs : list preq) (o : list pobs) : bool :=
   | _, _ => true
   end.
 
+Definition pipe_agrees (rq : list preq) (mcalls : N) (obs : list pobs) (dcalls : N) : bool :=
+  let m := map observe rq in
+  let nracy := N.of_nat (length (filter po_racy obs)) in
+  pointwise_or_racy m obs &&
+  list_eqb N.eqb (sortN (map (fun x => wc_code (fst (fst x)) (snd (fst x))) m))
+                 (sortN (map (fun y => wc_code (po_writes y) (po_class y)) obs)) &&
+  (mcalls <=? dcalls)%N && (dcalls <=? mcalls + nracy)%N.
+
+Fixpoint entered_ok (o : list pobs) (en : list bool) : bool :=
+  match o, en with
+  | y :: yr, e :: er =>
+      (* no reply only for a client that went away, or a datagram that never got into the
+         chain (shed at the admission cap, or its budget was gone when a worker reached it) *)
+      ((po_writes y =? 1)%N || po_cancelled y || negb e) && entered_ok yr er
+  | [], [] => true
+  | _, _ => false
+  end.
+
 Definition check_case (c : case) : bool :=
   match c with
   | CaseWriter ops obs emits =>
@@ -210,12 +233,11 @@ Definition check_case (c : case) : bool :=
       end
   | CasePipe rs evs obs dcalls =>
       let w := run_world rs evs in
-      let m := map observe (reqs w) in
-      let nracy := N.of_nat (length (filter po_racy obs)) in
-      pointwise_or_racy m obs &&
-      list_eqb N.eqb (sortN (map (fun x => wc_code (fst (fst x)) (snd (fst x))) m))
-                     (sortN (map (fun y => wc_code (po_writes y) (po_class y)) obs)) &&
-      (calls w <=? dcalls)%N && (dcalls <=? calls w + nracy)%N
+      pipe_agrees (reqs w) (calls w) obs dcalls
+  | CaseServer workers qcap cap rs paths evs obs entered dcalls leased inflight =>
+      let s := fold_left sevent_step evs (sworld0 rs paths workers qcap cap) in
+      pipe_agrees (reqs (s_w s)) (calls (s_w s)) obs dcalls &&
+      (N.of_nat (e_leased (s_e s)) =? leased)%N && (inflight =? leased)%N
   end.
 
 Definition spec_case (c : case) : bool :=
@@ -239,4 +261,11 @@ Definition spec_case (c : case) : bool :=
                         (po_cancelled y || (po_writes y =? 1)%N) &&
                         (if (po_class y =? 3)%N then po_expired y else true)) obs &&
       (length rs =? length obs)%nat && deadlines_ok rs obs
+  | CaseServer workers qcap cap rs paths evs obs entered dcalls leased inflight =>
+      forallb (fun y => (po_writes y <=? 1)%N &&
+                        (if (po_class y =? 3)%N then po_expired y else true)) obs &&
+      entered_ok obs entered &&
+      (length rs =? length obs)%nat && deadlines_ok rs obs &&
+      (* quiescence after the drain: every slab returned, nothing in flight *)
+      (leased =? 0)%N && (inflight =? 0)%N
   end.
